@@ -28,8 +28,8 @@ DOMAINS = {
                "unquote(s) with encoding='utf-8', errors='replace'",
     "unquotewhole": "same domain as unquote; the model's one-chunk variant must give the same result",
     "roundtrip": "all str of Unicode scalar values: model unquote(model quote(s)) == s and == CPython",
-    "path": "str for which urlsplit() does not raise and, after lstrip/TAB-CR-LF removal and removal "
-            "of a detected scheme, the remainder does not start with '//' (no netloc); "
+    "path": "str for which urlsplit() does not raise; an authority ('//' after the optional scheme) "
+            "is in the domain when it is ASCII and has no '[' or ']'; "
             "compares urlsplit(s).path",
     "scheme": "str for which urlsplit() does not raise; compares bool(urlsplit(s).scheme)",
     "urljoin": "base: starts with exactly one '/', contains none of '?', '#', TAB, CR, LF "
@@ -133,7 +133,9 @@ def gen_url(rng):
     k = rng.random()
     heads = ["", "", "", "a:", "http:", "A1+.-:", "1a:", "+a:", "é:", "a b:", ":", "a::", "x-y.z+1:",
              " a:", "\x01a:", "a\tb:", "\ta:", "a\n:", "/", "/a/b", "a/b:c", "?a:", "#a:", "a?b:c",
-             "a#b:c", "mailto:", "C:", "//", "a://h", "./a:b", "%3A:", "a%3Ab:", "a_b:", "a~:"]
+             "a#b:c", "mailto:", "C:", "//", "a://h", "./a:b", "%3A:", "a%3Ab:", "a_b:", "a~:",
+             "http://localhost", "http://localhost:8080", "https://h.example/", "//host", "//host/", "//h?q",
+             "//h#f", "http://u:p@h/", "HTTP://H/", "http:///", "///", "////a", "http:/a", "http:a", "//a//b"]
     s = rng.choice(heads) if k < 0.6 else ""
     s += rand_text(rng, 7, extra=("?", "#", ":", "/", "a", "b.vcf", "%3F", "%23"))
     if rng.random() < 0.15:
@@ -203,7 +205,7 @@ def oracle_path(s):
         return False, None
     c = clean(s)
     rest = c[len(sp.scheme) + 1:] if sp.scheme else c
-    if rest.startswith("//"):
+    if rest.startswith("//") and (not sp.netloc.isascii() or "[" in sp.netloc or "]" in sp.netloc):
         return False, None
     return True, sp.path
 
